@@ -19,7 +19,7 @@ TRUST = ("Trusted base: rustc MIR construction (Kani's pinned nightly), Kani 0.6
 CHECKS = {
     "C01": {
         "text": "Bounded model checking (Kani/CBMC) of every syntactic form of NOT/AND/OR/XOR on fully symbolic well-formed tables with a symbolic assignment, "
-                "one SAT query family per (type, n, operator): all 2^(2^n) tables and all assignments at once for each concrete n. quick: LutN n=0..8, Lut n in {0,3,6,7,+1 seeded}; "
+                "one SAT query family per (type, n, operator): all 2^(2^n) tables and all assignments at once for each concrete n. quick: LutN n=0..10, Lut n in {0,3,6,7,9,+1 seeded}; "
                 "thorough: LutN and Lut n=0..12. Lut n=13,14 are outside the claim.",
         "design_ref": "DESIGN.md section 5 / C01",
         "technique": "Kani/CBMC bounded model checking of the compiled crate, symbolic tables and assignment, SAT (CaDiCaL)",
@@ -28,7 +28,7 @@ CHECKS = {
 
 CHECKS.update({
     "C03": {
-        "text": "Bounded model checking of flip/swap/swap_adjacent/cofactors/from_cofactors (copying and in-place) on fully symbolic tables with symbolic indices i, j < n and a symbolic assignment: result bit m equals the defining source bit, so all three storage regimes (in-word, mixed, cross-word) are inside one query per (type, n, method). quick: LutN n=1..8, Lut n in {1,3,6,7,8,+1 seeded}; thorough: both types n=1..12 (n=12 optional under a cap). Lut n=13,14 outside the claim.",
+        "text": "Bounded model checking of flip/swap/swap_adjacent/cofactors/from_cofactors (copying and in-place) on fully symbolic tables with symbolic indices i, j < n and a symbolic assignment: result bit m equals the defining source bit, so all three storage regimes (in-word, mixed, cross-word) are inside one query per (type, n, method). quick: LutN n=1..8, Lut n in {1,3,6,7,8,+1 seeded} with symbolic indices, plus CONCRETE-index harnesses (one per index / representative index pair) for LutN n=9,10 (all indices) and a few at n=11,12; thorough: symbolic indices n=1..12 (swap n>=11 and all n=12 optional under caps) and concrete indices for every index and representative pairs up to n=12, both types. Lut n=13,14 outside the claim.",
         "design_ref": "DESIGN.md section 5 / C03",
         "technique": "Kani/CBMC bounded model checking, symbolic tables/indices/assignment, SAT (CaDiCaL)",
     },
@@ -56,7 +56,7 @@ CHECKS.update({
         "technique": "Kani/CBMC bounded model checking: one inductive step per producer from an arbitrary well-formed state + Skolemised extensionality",
     },
     "C06": {
-        "text": "Bounded model checking that top_decomposition / is_pos_unate / is_neg_unate EQUAL (sound and complete in one query) the class derived from the two cofactor tables by the property's priority order, for symbolic table and symbolic variable; the harness cofactor tables are tied to the definition by a separate solver-checked lemma (bit m of C0/C1 is f(m with x_v cleared/set)). quick n=1..8 (v symbolic), thorough n=9..10 symbolic v, n=11..12 concrete v under caps.",
+        "text": "Bounded model checking that top_decomposition / is_pos_unate / is_neg_unate EQUAL (sound and complete in one query) the class derived from the two cofactor tables by the property's priority order, for symbolic table and symbolic variable; the harness cofactor tables are tied to the definition by a separate solver-checked lemma (bit m of C0/C1 is f(m with x_v cleared/set)). quick n=1..8 with v symbolic plus every concrete v at n=9,10 and a few at n=11,12 (LutN); thorough adds symbolic v at n=9,10 and every concrete v up to n=12, both types.",
         "design_ref": "DESIGN.md section 5 / C06",
         "technique": "Kani/CBMC bounded model checking against a two-piece definitional oracle (cofactor lemma + classification)",
     },
